@@ -26,6 +26,7 @@ Oracle: the laws of the statement plus an independent reference model (documente
 naive selections) that shares no code with odl.
 """
 import itertools
+import re
 import warnings
 
 import numpy as np
@@ -162,7 +163,8 @@ def build(r, env):
     if tag == 'UGrid':
         return odl.uniform_grid(_seq(r[1]), _seq(r[2]), _seq(r[3]))
     if tag == 'UPart':
-        nob = r[4] if isinstance(r[4], bool) else [r[4]]
+        nob = r[4] if isinstance(r[4], bool) else [tuple(e) if isinstance(e, tuple) else e
+                                                   for e in r[4]]
         return odl.uniform_partition(_seq(r[1]), _seq(r[2]), _seq(r[3]), nodes_on_bdry=nob)
     if tag == 'Part':
         return odl.RectPartition(build(r[1], env), build(r[2], env))
@@ -299,7 +301,7 @@ def _pair_site(a, b):
     ca, cb = _site_cls(a), _site_cls(b)
     if ca != cb:
         return '~'.join(sorted([ca, cb]))
-    return ca if type(a) is type(b) else ca + '[across subclasses]'
+    return ca if type(a) is type(b) else ca + '(across subclasses)'
 
 
 def _descend(a, b, test, depth=0):
@@ -350,6 +352,9 @@ def field_name(space):
     return _cls(f)
 
 
+_ADDR = re.compile(r' at 0x[0-9a-fA-F]+')
+
+
 class Report(object):
     """Collects the first failing case per (site, symptom), counts evaluations and outcomes."""
 
@@ -360,7 +365,8 @@ class Report(object):
         self.sigs = set()
 
     def bad(self, site, symptom, detail):
-        self.first.setdefault((site, symptom), str(detail)[:900])
+        # no memory addresses in details: replays are compared literally between processes
+        self.first.setdefault((site, symptom), _ADDR.sub(' at 0x?', str(detail))[:900])
 
     def result(self, sample=None):
         viol = [{'site': s, 'symptom': y, 'detail': d}
@@ -657,6 +663,16 @@ def _check_values(rep, site, lab, res, S, expected, dt):
     return ok
 
 
+def _relation(r1, r2):
+    """True / False / None: documented equal / documented unequal / left open."""
+    (s1, l1), (s2, l2) = M.keys(r1, 2), M.keys(r2, 0)
+    if s1 == s2:
+        return True
+    if l1 != l2:
+        return False
+    return None
+
+
 def _sibling_recipes(recipe, tier):
     """Other tensor-like spaces of the universe with the same shape."""
     sh = M.space_shape(recipe)
@@ -716,7 +732,7 @@ def _run_element_tensor(cfg, recipe, rep):
     rep.evals += 1
     if st == 'ok':
         rep.bad(site, 'invalid_order_accepted', "element(inp, order='X') does not raise")
-    if dt.kind in 'biufc' and isinstance(S, NT.NumpyTensorSpace):
+    if dt.kind in 'biufc' and isinstance(S, NT.NumpyTensorSpace) and sh != ():
         # "Elements can also be constructed from a data pointer, resulting again in shared memory"
         for o in ('C', 'F'):
             buf = np.array(vals, order=o)
@@ -800,7 +816,13 @@ def _run_element_tensor(cfg, recipe, rep):
         T = build(r, env)
         sv = M.values(sh, sdt, salt=1)
         y = T.element(sv.copy())
-        if M.keys(r, 2)[0] == M.keys(recipe, 0)[0]:
+        rel = _relation(r, recipe)
+        if rel is None:
+            # the documentation leaves open whether the two spaces are equal: follow the
+            # library's own membership (validated by the member states)
+            rep.skipped += 1
+            rel = _try(lambda: y in S)[1] is True
+        if rel:
             case('element of equal space %s' % M.name(r), y, 'same', sig='sibling-equal')
         else:
             case('element of unequal space %s' % M.name(r), y, 'values', sv.astype(dt),
@@ -865,6 +887,20 @@ def _run_element_tensor(cfg, recipe, rep):
                     case('list of shape %s' % (wsh,), wv.tolist(), 'raise', sig='wrong-shape')
             else:
                 case('ndarray of shape %s' % (wsh,), wv, 'either', wv, sig='same-size-shape')
+
+    # --- odl.vector: "the space type is inferred from the input data"
+    if recipe[0] == 'TS' and recipe[3] is None and recipe[5] == 2.0 and len(sh) >= 1:
+        for lab, f in [('vector(ndarray)', lambda: odl.vector(vals.copy())),
+                       ('vector(list, dtype)', lambda: odl.vector(vals.tolist(), dtype=dt)
+                        if vals.size or len(sh) == 1 else odl.vector(vals.copy(), dtype=dt))]:
+            st, v = _try(f)
+            rep.evals += 1
+            rep.sigs.add('vector:%s:%s' % (dt.kind, st))
+            if st == 'exc':
+                rep.bad('odl.vector', 'raises:' + type(v).__name__, '%s for %s raises %r'
+                        % (lab, cfg['row'], v))
+            else:
+                _check_values(rep, 'odl.vector', lab, v, S, vals, dt)
 
     # --- discretized spaces: callables and tspace elements
     if isinstance(S, DiscretizedSpace):
@@ -1029,7 +1065,11 @@ def _run_element_pspace(cfg, recipe, rep):
         if r[0] in ('PS', 'PW') and r != recipe and M.keys(r)[1] == M.keys(recipe)[1]:
             T = build(r, env)
             y = T.element(_pspace_values(T, salt=1))
-            if M.keys(r, 2)[0] == M.keys(recipe, 0)[0]:
+            rel = _relation(r, recipe)
+            if rel is None:
+                rep.skipped += 1
+                rel = _try(lambda: y in S)[1] is True
+            if rel:
                 case('element of equal space %s' % M.name(r), y, 'same', sig='sibling-equal')
             else:
                 case('element of unequal space %s' % M.name(r), y, 'values',
@@ -1122,11 +1162,11 @@ def _run_derived_tensor(cfg, recipe, rep):
     sh, dt = M.space_shape(recipe), M.space_dtype(recipe)
     wd = wdesc(S.weighting)
     arrw = wd[0] == 'array'
-    tagw = '[array-weighted]' if arrw else ''
+    tagw = '(array-weighted)' if arrw else ''
     numeric = dt.kind in 'iufc'
     base = 'TensorSpace'        # astype and the counterparts live in TensorSpace for all of them
     if not numeric:
-        tagw = '[non-numeric dtype]'
+        tagw = '(non-numeric dtype)'
 
     def expect_astype(lab, R, dtype, site):
         floating = np.dtype(dtype).kind in 'fc'
@@ -1164,36 +1204,44 @@ def _run_derived_tensor(cfg, recipe, rep):
     if numeric:
         ops = ['real_space', 'complex_space', 'astype:float32', 'astype:complex64',
                'astype:float64', 'astype:complex128']
-        depth = 3 if thorough else 2
-        for seq in itertools.product(ops, repeat=depth):
-            S = build(recipe, env)
-            cur = S
-            cur_dt = dt
-            for step, op in enumerate(seq):
-                if op == 'real_space':
-                    want = M.counterpart(cur_dt, 'real')
-                elif op == 'complex_space':
-                    want = M.counterpart(cur_dt, 'complex')
-                else:
-                    want = np.dtype(op.split(':')[1])
-                if want is None:
-                    rep.skipped += 1        # no documented counterpart (e.g. integer -> complex)
-                    break
-                site = '%s.%s%s' % (base, op.split(':')[0], tagw)
-                st, R = _try(lambda: getattr(cur, op) if ':' not in op else cur.astype(want))
-                rep.evals += 1
-                lab = '%s after %s' % (op, list(seq[:step]))
-                if st == 'exc':
-                    rep.bad(site, 'raises:' + type(R).__name__,
-                            '%s: %s raises %r' % (cfg['row'], lab, R))
-                    break
-                if not expect_astype(lab, R, want, site):
-                    break
-                cur, cur_dt = R, want
-            rep.sigs.add('cache:%s:%d' % (base, step))
-            if not (tuple(S.shape) == sh and S.dtype == dt and wdesc(S.weighting) == wd):
-                rep.bad('%s.astype%s' % (base, tagw), 'source_space_modified',
-                        'sequence %s changed the space itself' % list(seq))
+        depth = 3 if thorough else 2        # 'same' mode goes one deeper
+        # mode 'same': every call on the SAME space object (repeated calls hit its cache);
+        # mode 'chain': every call on the result of the previous one
+        for mode in ('same', 'chain'):
+            for seq in itertools.product(ops, repeat=depth + (1 if mode == 'same' else 0)):
+                S = build(recipe, env)
+                cur = S
+                cur_dt = dt
+                for step, op in enumerate(seq):
+                    if op == 'real_space':
+                        want = M.counterpart(cur_dt, 'real')
+                    elif op == 'complex_space':
+                        want = M.counterpart(cur_dt, 'complex')
+                    else:
+                        want = np.dtype(op.split(':')[1])
+                    if want is None:
+                        rep.skipped += 1    # no documented counterpart (integer -> complex)
+                        break
+                    site = '%s.%s%s' % (base, op.split(':')[0], tagw)
+                    st, R = _try(lambda: getattr(cur, op) if ':' not in op else cur.astype(want))
+                    rep.evals += 1
+                    lab = '%s after %s (%s)' % (op, list(seq[:step]),
+                                                'all on the same space' if mode == 'same'
+                                                else 'each on the previous result')
+                    if st == 'exc':
+                        rep.bad(site, 'raises:' + type(R).__name__,
+                                '%s: %s raises %r' % (cfg['row'], lab, R))
+                        if mode == 'chain':
+                            break
+                        continue
+                    if not expect_astype(lab, R, want, site) and mode == 'chain':
+                        break
+                    if mode == 'chain':
+                        cur, cur_dt = R, want
+                rep.sigs.add('cache:%s:%s:%d' % (mode, base, step))
+                if not (tuple(S.shape) == sh and S.dtype == dt and wdesc(S.weighting) == wd):
+                    rep.bad('%s.astype%s' % (base, tagw), 'source_space_modified',
+                            'sequence %s changed the space itself' % list(seq))
 
     # --- by axis
     S = build(recipe, env)
@@ -1370,20 +1418,24 @@ def _run_index_tensor(cfg, recipe, rep):
     wd = wdesc(ts.weighting)
     arrw = wd[0] == 'array'
     # DiscretizedSpaceElement.__getitem__ delegates to its tensor
-    site = '%s.__getitem__%s' % (type(getattr(x, 'tensor', x)).__name__,
-                                 '[array-weighted]' if arrw else '')
+    site0 = '%s.__getitem__%s' % (type(getattr(x, 'tensor', x)).__name__,
+                                  '(array-weighted)' if arrw else '')
     alphabet = list(M.index_alphabet(sh, thorough))
     if sh and dt.kind in 'iufc':
         # an element of the boolean counterpart of the space as mask (x[x.ufuncs.greater(0)])
         mask = M.values(sh, 'bool')
-        alphabet.append(('element-mask', S.astype(bool).element(mask), mask))
+        alphabet.append(_ElementMask(S.astype(bool).element(mask), mask))
     for idx in alphabet:
-        if isinstance(idx, tuple) and idx and idx[0] == 'element-mask':
-            _, idx_odl, idx = idx
+        if isinstance(idx, _ElementMask):
+            idx_odl, idx = idx.element, idx.mask
             lab = 'x[<element of space.astype(bool): %s>]' % idx.tolist()
         else:
             idx_odl = idx
             lab = 'x[%s]' % M.index_name(idx)
+        # basic = ints / slices / Ellipsis / newaxis (views); advanced = lists, index arrays, masks
+        adv = any(isinstance(i, (list, np.ndarray))
+                  for i in (idx if isinstance(idx, tuple) else (idx,)))
+        site = '%s(%s)' % (site0, 'advanced index' if adv else 'basic index')
         data = _arr(x)
         st0, exp = _try(lambda: data[idx])
         if st0 == 'exc':
@@ -1436,6 +1488,11 @@ def _run_index_tensor(cfg, recipe, rep):
     return rep
 
 
+class _ElementMask(object):
+    def __init__(self, element, mask):
+        self.element, self.mask = element, mask
+
+
 def _leaf_struct(S):
     return (type(S).__name__, tuple(S.shape), np.dtype(S.dtype).str, wdesc(S.weighting))
 
@@ -1486,9 +1543,10 @@ def _run_index_pspace(cfg, recipe, rep):
     arr = np.asarray(_stack(_pspace_values(S))) if power else None
     if power:
         depth = arr.ndim        # tuple indices reach into the tensors of a power space
-    ssite, esite = 'ProductSpace.__getitem__', 'ProductSpaceElement.__getitem__'
     for idx in M.pspace_index_alphabet(n, depth, thorough):
         lab = '[%s]' % M.index_name(idx)
+        ssite = 'ProductSpace.__getitem__(%s)' % M.index_class(idx)
+        esite = 'ProductSpaceElement.__getitem__(%s)' % M.index_class(idx)
         kind, sel = M.select_factors(tree, idx)
         # ---- the space
         st, R = _try(lambda: S[idx])
@@ -1776,11 +1834,17 @@ def meta(tier):
                 '(operation, class, outcome class, executed-line signature).',
         'bounds': {'universe_recipes': len(recs), 'nodes': 2 * len(recs), 'families': fam,
                    'ordered_pairs': (2 * len(recs)) ** 2,
-                   'counterpart_sequence_depth': 3 if tier == 'thorough' else 2,
+                   'counterpart_call_sequences': 'ops {real_space, complex_space, astype f32/c64/'
+                                                 'f64/c128}: all sequences of length %d applied '
+                                                 'to the same space object and of length %d '
+                                                 'applied to the previous result'
+                                                 % ((4, 3) if tier == 'thorough' else (3, 2)),
                    'element_input_dtypes': DTYPES, 'astype_dtypes': ASTYPE_DTYPES,
                    'shapes': '(), (0,), (1,), (2,), (3,), (2,2), (2,3), (3,2)'
-                             + (', (4,), (1,2), (2,1), (0,2), (2,2,2)' if tier == 'thorough'
-                                else ''),
+                             + (', (4,), (1,2), (2,1), (0,2), (2,2,2); plus the full products '
+                                'shape x dtype x weighting x exponent (tensor), domain x dtype x '
+                                'nodes_on_bdry x exponent (discretized), base x length x weighting '
+                                'x exponent (product spaces)' if tier == 'thorough' else ''),
                    'index_alphabet': 'ints, slices start/stop in {None,0,1,-1,n} x steps, '
                                      'Ellipsis, None, lists, bool masks (all 2^n), int arrays, '
                                      '2-d/3-d tuples mixing them'},
@@ -1788,8 +1852,10 @@ def meta(tier):
             'array weightings compare by identity (documented), so the two builds of a recipe '
             'share the pool of weight arrays; weights given as lists are new arrays per build',
             'the docstrings of DiscretizedSpace.__eq__ and ProductSpace.__eq__ do not mention '
-            'partition / weighting although the code compares them: such pairs are counted as '
-            'unspecified for the documented-identity oracle (the laws are still checked)',
+            'partition / weighting although the code compares them, and the weighting docstrings '
+            'leave open whether equal data in different subclasses is equal: such pairs are '
+            'counted as unspecified for the documented-identity oracle (the laws -- symmetry, '
+            'transitivity, equal hashes -- are still checked on them)',
             'complex -> real conversion in element(), weighting after astype to a non-floating '
             'dtype, by-axis selection of per-entry weight arrays, empty by-axis selections of '
             'discretized spaces, UniversalSpace (documented dummy) are not judged',
